@@ -55,7 +55,7 @@ def dialect_tables():
              "i64b": Int64(), "f64b": Float64(), "sb": String(), "bb": Bool(), "db": Date(), "dtb": Datetime(), "durb": Duration(), "tmb": Time()}
     out = {}
     for name, eng in fakedrivers.engines().items():
-        def mk(tname):
+        def mk(tname, eng=eng):  # bind the engine of THIS dialect (a late-binding closure would use the last one for all)
             md = sa.MetaData()
             tb = sa.Table(tname, md, *[sa.Column(c, sa_type(t)) for c, t in types.items()])
             return pdt.Table(tb, pdt.SqlAlchemy(eng))
@@ -146,27 +146,44 @@ def make_b2_dialect(dname):
                         m = op.trie.best_match(list(sig))
                         if m is not None and any(T.is_const(p) and TU.is_null_typed(a) for a, p in zip(sig, m[0], strict=False)):
                             continue
+                    if "str_to_datetime_literal" in carve and opname in ("str_to_datetime", "str_to_date") and T.is_const(sig[0]):
+                        continue
                     args = build_args(t, sig, types)
                     if args is None:
                         continue
-                    n += 1
-                    try:
-                        kw = {}
-                        if op.ftype == H.Ftype.WINDOW:
-                            kw["arrange"] = [t.i64]
-                        e = H.ColFn(op, *args, **kw)
-                        if op.ftype == H.Ftype.AGGREGATE:
-                            q = t >> pdt.group_by(t.i8) >> pdt.summarize(r=e) >> pdt.build_query()
-                            q2 = t >> pdt.mutate(r=e) >> pdt.build_query()
-                        else:
-                            q = t >> pdt.mutate(r=e) >> pdt.build_query()
-                            q2 = q
-                        if not (isinstance(q, str) and q.lstrip().upper().startswith("SELECT") and isinstance(q2, str)):
-                            bad.append(f"{dname}: {opname}{_fmt(sig)}: build_query returned {q!r:.80}")
-                    except OK_ERRORS:
-                        pass
-                    except Exception as ex:  # noqa: BLE001
-                        bad.append(f"{dname}: {opname}{_fmt(sig)}: {type(ex).__name__}: {str(ex)[:140]}")
+                    # every accepted combination of the context keyword arguments (arrange= / partition_by= / filter=) the operator declares
+                    ctx_names = [k.name for k in (op.context_kwargs or [])]
+                    variants = [{}]
+                    if op.ftype == H.Ftype.WINDOW:
+                        variants = [{"arrange": [t.i64]}, {"arrange": [t.i64.descending().nulls_last(), t.s], "partition_by": [t.b]}]
+                    elif op.ftype == H.Ftype.AGGREGATE:
+                        if "arrange" in ctx_names:
+                            variants.append({"arrange": [t.i64]})
+                            variants.append({"arrange": [t.s.descending()], "filter": t.b})
+                        if "filter" in ctx_names:
+                            variants.append({"filter": t.b})
+                        if "partition_by" in ctx_names:
+                            variants.append({"partition_by": [t.b]})
+                    for kw in variants:
+                        n += 1
+                        vlab = ("{" + ",".join(sorted(kw)) + "}") if kw else ""
+                        try:
+                            e = H.ColFn(op, *args, **kw)
+                            if op.ftype == H.Ftype.AGGREGATE and "partition_by" not in kw:
+                                q = t >> pdt.group_by(t.i8) >> pdt.summarize(r=e) >> pdt.build_query()
+                                q2 = t >> pdt.mutate(r=e) >> pdt.build_query()
+                            else:
+                                q = t >> pdt.mutate(r=e) >> pdt.build_query()
+                                q2 = q
+                            if not (isinstance(q, str) and q.lstrip().upper().startswith("SELECT") and isinstance(q2, str)):
+                                bad.append(f"{dname}: {opname}{_fmt(sig)}{vlab}: build_query returned {q!r:.80}")
+                        except OK_ERRORS:
+                            pass
+                        except (pdt.errors.DataTypeError, pdt.errors.FunctionTypeError, TypeError) as ex:
+                            if not kw:
+                                bad.append(f"{dname}: {opname}{_fmt(sig)}: {type(ex).__name__}: {str(ex)[:140]}")
+                        except Exception as ex:  # noqa: BLE001
+                            bad.append(f"{dname}: {opname}{_fmt(sig)}{vlab}: {type(ex).__name__}: {str(ex)[:140]}")
         return _enum_outcome(f"{dname}: every operator x accepted signature compiles in a one-verb pipeline (SELECT text or NotSupportedError / SubqueryError)", n, bad)
 
     return run
@@ -297,7 +314,7 @@ def obligations(tier):
     except Exception:  # noqa: BLE001
         extra = {"sqlite": []}
     for d in extra:
-        obs.append(Obligation(f"C19/B2/ops/{d}", "B1+B2+B5", f"operator x signature totality on {d}", make_b2_dialect(d), functions=base + extra[d], carveouts={"duration_literal": "timedelta literals", "null_const_param": "None passed to a const parameter"}, bounded="one representative type per family (plain / const / null literal); arity <= 3 fully, larger arities over the operator's core types"))
+        obs.append(Obligation(f"C19/B2/ops/{d}", "B1+B2+B5", f"operator x signature totality on {d}", make_b2_dialect(d), functions=base + extra[d], carveouts={"duration_literal": "timedelta literals", "null_const_param": "None passed to a const parameter", "str_to_datetime_literal": "str.to_datetime / to_date of a string literal on SQLite"}, bounded="one representative type per family (plain / const / null literal); arity <= 3 fully, larger arities over the operator's core types"))
         obs.append(Obligation(f"C19/B3/pipelines/{d}", "B3+B4", f"pipeline family on {d}", make_b3(d), functions=base + extra[d], bounded=f"{len(PIPELINES)} pipelines"))
     return obs
 
